@@ -159,6 +159,36 @@ Section Trace.
     Proof. unfold trun. apply fold_left_app. Qed.
   End Run.
 
+  (* the same for partial structures: only [valid] letters, only states satisfying an invariant
+     [P] (e.g. well-shaped matrices, where matrix multiplication is associative) *)
+  Section RunOn.
+    Context {S : Type}.
+    Variable act : A -> S -> S.
+    Variable valid : A -> Prop.
+    Variable P : S -> Prop.
+    Hypothesis P_act : forall a s, valid a -> P s -> P (act a s).
+    Hypothesis act_comm_on : forall a b s, valid a -> valid b -> P s -> indep a b = true ->
+      act a (act b s) = act b (act a s).
+
+    Lemma trun_P l s : Forall valid l -> P s -> P (trun act l s).
+    Proof.
+      revert s. induction l as [|a l IH]; intros s Hv Hs; simpl; auto.
+      inversion Hv; subst. apply IH; auto.
+    Qed.
+
+    Lemma run_respects_on l1 l2 : teq l1 l2 -> Forall valid l1 ->
+      forall s, P s -> trun act l1 s = trun act l2 s.
+    Proof.
+      induction 1 as [|x l l' H IH|x y l Hxy|l l' l'' H1 IH1 H2 IH2]; intros Hv s Hs; simpl.
+      - reflexivity.
+      - inversion Hv; subst. apply IH; auto.
+      - inversion Hv as [|? ? Hx Hv']; subst. inversion Hv' as [|? ? Hy Hv'']; subst.
+        rewrite (act_comm_on y x s) by (auto; now rewrite indep_sym). reflexivity.
+      - rewrite IH1 by auto. apply IH2; auto.
+        eapply Permutation_Forall; [apply teq_perm; exact H1|exact Hv].
+    Qed.
+  End RunOn.
+
   (* ---- dependent letters keep their relative order ------------------------------------ *)
   Lemma teq_filter_dep (p : A -> bool) :
     (forall x y, p x = true -> p y = true -> indep x y = true -> x = y) ->
